@@ -36,6 +36,12 @@ static void writer(int ci, int e) {
         if (r > (ssize_t)asked) pmc_violation("transfer-more-than-asked", "%s returned %zd for %zu bytes", what, r, asked);
         if (r > 0) { c.sent[e] += data.substr(off, r); off += r; }
     };
+    if (W->timeout && e == 0) {                 // timeout scenario: first half now, second half after the reader's deadline
+        int h = limit / 2;
+        ssize_t r = s->write(data.data(), h); note(r, h, "write"); if (r != h) pmc_violation("write-short", "write(%d) returned %zd errno %d", h, r, errno);
+        thread_usleep(80);
+        r = s->write(data.data() + h, limit - h); note(r, limit - h, "write"); if (r != limit - h) pmc_violation("write-short", "write(%d) returned %zd errno %d", limit - h, r, errno);
+    } else
     if (W->wkind == 'w') {                      // one write() of everything: must transfer the full count (nobody closes)
         ssize_t r = s->write(data.data(), limit); note(r, limit, "write");
         if (r != limit && !(r < 0 && W->timeout)) pmc_violation("write-short", "write(%d) returned %zd errno %d", limit, r, errno);
@@ -68,12 +74,13 @@ static void reader(int ci, int e) {            // reads on end e what the writer
     Conn& c = W->conns[ci]; KernelSocketStream* s = c.s[e];
     int expect = (W->shut_at >= 0 && e == 1) ? std::min(W->shut_at, W->L) : W->L;
     int n = 1; { int k = pmc_choose(4, PMC_PROG, 0, "reader buffer size"); n = k == 0 ? std::max(1, W->L + 1) : k == 1 ? 1 : k == 2 ? 2 : (int)W->cap; }
-    if (W->timeout) s->timeout(TMO);
-    int guard = 0;
+    bool timed = W->timeout && e == 1;          // (epoll_wait has 1 ms granularity: a 50 us timeout may take up to ~1 ms) only this reader has a stream timeout; every other waiter must be unaffected by it
+    if (timed) s->timeout(TMO);
+    int guard = 0; int timeouts = 0;
     while ((int)c.got[e].size() < expect || (W->shut_at >= 0 && e == 1)) {
         std::vector<char> buf(n); char* pb = buf.data();                 // exact-size heap block
         size_t want = (W->rkind != 'c') ? std::min<size_t>(n, std::max(1, expect - (int)c.got[e].size())) : n;    // read/readv are "read fully"
-        uint64_t t0 = sv::vnow; if (W->timeout) sv::register_deadline(t0 + TMO);
+        uint64_t t0 = sv::vnow; if (timed) sv::register_deadline(t0 + TMO);
         errno = 0; ssize_t r;
         if (W->rkind == 'r') r = s->read(pb, want);
         else if (W->rkind == 'c') r = s->recv(pb, want);
@@ -81,9 +88,12 @@ static void reader(int ci, int e) {            // reads on end e what the writer
         int en = errno;
         if (r > (ssize_t)want) pmc_violation("transfer-more-than-asked", "read/recv returned %zd for %zu bytes", r, want);
         if (r < 0) {
-            if (W->timeout && en == ETIMEDOUT) {
+            if (timed && en == ETIMEDOUT) {
                 if (sv::vnow < t0 + TMO) pmc_violation("timeout-before-deadline", "ETIMEDOUT after %llu us (deadline %llu)", (unsigned long long)(sv::vnow - t0), (unsigned long long)TMO);
-                W->log += 't'; break;
+                if (sv::vnow > t0 + TMO + 1100) pmc_violation("hang-past-timeout", "recv returned ETIMEDOUT only after %llu us (timeout %llu)", (unsigned long long)(sv::vnow - t0), (unsigned long long)TMO);
+                if (simk::readable(c.fd[e]) && simk::F[c.fd[e] - simk::FD0].rx.size() > 0 && sv::vnow - t0 < TMO) pmc_violation("timeout-with-data", "timed out although data was readable");
+                W->log += 't'; if (++timeouts > 8) pmc_violation("timeout-loop", "more than 8 timeouts");
+                continue;               // a timed-out recv consumed nothing: keep reading
             }
             pmc_violation("read-error", "read/recv returned -1 errno %d", en);
         }
@@ -138,7 +148,7 @@ void pmc_run(const char* config) {
     for (auto h : jh) thread_join(h);
     pmc_window(0);
     for (auto& c : w.conns) for (int e = 0; e < 2; e++) {
-        if (!w.timeout && c.got[e] != c.sent[1 - e]) pmc_violation("bytes-lost-or-duplicated", "end %d received \"%s\" but the peer's writer was credited \"%s\"", e, c.got[e].c_str(), c.sent[1 - e].c_str());
+        if (c.got[e] != c.sent[1 - e]) pmc_violation("bytes-lost-or-duplicated", "end %d received \"%s\" but the peer's writer was credited \"%s\"", e, c.got[e].c_str(), c.sent[1 - e].c_str());
     }
     uint64_t ea = 0; for (auto& c : w.conns) for (int e = 0; e < 2; e++) ea += simk::F[c.fd[e] - simk::FD0].eagain_send * 100 + simk::F[c.fd[e] - simk::FD0].eagain_recv;
     pmc_obs("%s ew=%llu ev=%llu eagain=%llu", w.log.c_str(), (unsigned long long)simk::n_epoll_wait, (unsigned long long)simk::n_events_delivered, (unsigned long long)ea);
@@ -155,6 +165,8 @@ static const PmcConfig CFG[] = {
     {"cap2:w0:r",      3, {0,0}, {0,0}, {1,1}, {0,0}, "empty message"},
     {"cap2:w4:r:d",    3, {0,0}, {0,0}, {2,2}, {0,0}, "full duplex: both directions of each fd awaited at once (one-shot re-arming)"},
     {"cap2:s3:c:2",    3, {0,0}, {0,0}, {2,2}, {0,0}, "two connections sharing the engine: event batches truncated / reordered"},
+    {"cap2:w4:c:t",    3, {0,0}, {1,1}, {2,2}, {2,3}, "stream timeout fires while the second half is still to come; nothing is lost"},
+    {"cap2:w4:c:t:d",  3, {0,0}, {1,1}, {1,2}, {2,2}, "... with the other direction of the same descriptors busy: the timeout must not disturb it"},
     {"cap2:w5:r:h3",   3, {0,0}, {0,0}, {2,3}, {0,0}, "peer shuts down after 3 of 5 bytes: read returns the bytes so far, then EOF"},
     {"cap2:w4:c:d:2",  2, {0,0}, {0,0}, {2,3}, {0,0}, ""},
     {"cap4:v9:x:d",    2, {0,0}, {0,0}, {2,3}, {0,0}, ""},
